@@ -2,6 +2,8 @@
 
 package lua
 
+import "math"
+
 // C15.format — string.format of the integer, character and string conversions against C printf.
 //
 // The real pipeline runs: strFormat -> fmt.Sprintf (the library's own directive parser, interpreted from
@@ -245,6 +247,44 @@ func H_C15_format() {
 		default:
 			VAssert(sameBytes(out[0], want), "format: integer conversion as C printf "+text)
 		}
+	}
+	VReach("end")
+}
+
+// c15FloatVals: the arguments of the float-conversion table (same order as tools/gen_fformat_table.c).
+var c15FloatVals = []float64{0.0, math.Copysign(0, -1), 1.0, -1.0, 0.5, 1.5, 2.5, 0.125, -0.375, 9.995, 99.5, 1e10, 1e-10, 123456.789, -123456.789, 1e22, 1e300, 5e-324, 0.1, 1.0 / 3.0, 2147483648.5, 999999.9999999, 1e15 + 0.5, math.Inf(1), math.Inf(-1)}
+
+// the quick tier takes these arguments (signed zero, a rounding carry, a tie at .0, six integer digits, a tiny
+// and the smallest subnormal value, an infinity); the thorough tier takes all of c15FloatVals
+var c15FloatQuick = []int{1, 6, 9, 13, 12, 17, 24}
+
+// C15.fformat — string.format of %e %E %f with every flag set, width and precision against C printf.
+//
+// The argument is CONCRETE here: the digit generation of strconv (Ryu / big decimal, 128-bit products) is
+// outside solver reach with a symbolic float64, so this harness decides only what the library adds on top of
+// it — the directive handling of strFormat, LNumber.Format and defaultFormat (flags, width, precision, verb) —
+// by running the real pipeline on 450 directives x the listed arguments.  The expected text is the output of
+// glibc printf for the same directive and argument (tools/gen_fformat_table.c, table in c15_floattab.go).
+//
+//verif:harness prop=C15 tier=quick tmaxpaths=20000 bounds="450 directives = % + one of 10 flag sets {none,-,+,space,#,0,+0,-+,# space,0 space} + width {none,8,14} + precision {none,.0,.1,.3,.10} + e/E/f; argument one of 7 (quick) / 25 (thorough) CONCRETE float64 values incl. signed zeros, ties, carries, 1e300, the smallest subnormal and both infinities; expected text from glibc printf; NOT symbolic in the argument (strconv digit generation is outside solver reach)"
+func H_C15_fformat() {
+	L := newL(Options{}, BaseLibName, StringLibName)
+	d := VChoice(len(c15FloatDirs))
+	var v int
+	if VTier() > 0 {
+		v = VChoice(len(c15FloatVals))
+	} else {
+		v = c15FloatQuick[VChoice(len(c15FloatQuick))]
+	}
+	text := c15FloatDirs[d]
+	x := c15FloatVals[v]
+	out, err := callLib(L, "string", "format", 1, LString(text), LNumber(x))
+	VAssert(err == nil, "fformat: no error "+text)
+	want := []byte(c15FloatWant[d][v])
+	if math.IsInf(x, 0) {
+		VAssert(sameBytes(out[0], want), "fformat: an infinity prints as inf / INF with the sign rules of the directive "+text)
+	} else {
+		VAssert(sameBytes(out[0], want), "fformat: float conversion as C printf "+text)
 	}
 	VReach("end")
 }
